@@ -110,6 +110,12 @@ def grid(name, tier):
     for ax, vals in axes.items():
         for i, v in enumerate(vals):
             add('%s%d' % (ax, i), base_cfg(name, **v))
+    if tier != 'thorough' and name == 'DP17.Pi':
+        # the one pair of axes whose interplay selects code no single departure reaches: with every level stored (ratio 1.0) and
+        # L > 1 a list is cut into 2..L chunks of 2^i with a shorter last chunk
+        for i, va in enumerate(axes['L']):
+            for j, vb in enumerate(axes['ratio']):
+                add('L%d+ratio%d' % (i, j), base_cfg(name, **dict(va, **vb)))
     if tier == 'thorough':
         names = list(axes)
         for a, b in itertools.combinations(names, 2):
